@@ -32,17 +32,17 @@ type Step struct {
 }
 
 type IncResult struct {
-	Step     Step   `json:"step"`
-	Exit     int    `json:"exit"`
-	Crashed  bool   `json:"crashed"`
-	Reached  bool   `json:"reached_target"`
-	Timeout  bool   `json:"timeout"`  // the parent's wall-clock watchdog killed the child (inconclusive)
-	Stalled  bool   `json:"stalled"`  // the node was alive for 60 s without reaching its target
-	Marker   string `json:"marker"`
-	WALBefore int64 `json:"wal_size"`
-	WALSynced int64 `json:"wal_synced"`
-	WALAfter  int64 `json:"wal_after_cut"`
-	Stderr   string `json:"stderr,omitempty"`
+	Step      Step   `json:"step"`
+	Exit      int    `json:"exit"`
+	Crashed   bool   `json:"crashed"`
+	Reached   bool   `json:"reached_target"`
+	Timeout   bool   `json:"timeout"` // the parent's wall-clock watchdog killed the child (inconclusive)
+	Stalled   bool   `json:"stalled"` // the node was alive for 60 s without reaching its target
+	Marker    string `json:"marker"`
+	WALBefore int64  `json:"wal_size"`
+	WALSynced int64  `json:"wal_synced"`
+	WALAfter  int64  `json:"wal_after_cut"`
+	Stderr    string `json:"stderr,omitempty"`
 }
 
 type PVEntry struct {
@@ -133,13 +133,26 @@ func (r *Runner) runInc(home string, inc int, st Step) IncResult {
 		if len(p) == 3 {
 			env = append(env, "VERIF_POINTS="+p[1]+"=crash@"+p[2])
 		}
+	case strings.HasPrefix(st.Plan, "sys:"):
+		// handled below
 	case st.Plan != "":
 		args = append(args, "-plan", st.Plan)
 	}
 	_ = os.Remove(filepath.Join(home, "hookjournal"))
 	ctx, cancel := context.WithTimeout(context.Background(), 90*time.Second)
 	defer cancel()
-	cmd := exec.CommandContext(ctx, r.Bin, args...)
+	bin := r.Bin
+	sysKill := false
+	if strings.HasPrefix(st.Plan, "sys:") {
+		// syscall-level crash point: SIGKILL on entering the n-th call of the set (strace fault injection)
+		p := strings.Split(st.Plan, ":")
+		if len(p) == 3 {
+			args = append([]string{"-f", "-o", "/dev/null", "-e", "trace=" + p[1], "-e", "inject=" + p[1] + ":signal=SIGKILL:when=" + p[2], r.Bin}, args...)
+			bin = "strace"
+			sysKill = true
+		}
+	}
+	cmd := exec.CommandContext(ctx, bin, args...)
 	cmd.Env = env
 	var so, se bytes.Buffer
 	cmd.Stdout, cmd.Stderr = &so, &se
@@ -153,6 +166,8 @@ func (r *Runner) runInc(home string, inc int, st Step) IncResult {
 	switch {
 	case res.Exit == 87:
 		res.Crashed = true
+	case sysKill && !strings.Contains(out, "CRASHBOX-TARGET") && !strings.Contains(out, "CRASHBOX-TIMEOUT") && ctx.Err() == nil:
+		res.Crashed = true // killed by the injected SIGKILL
 	case strings.Contains(out, "*** fail-test"):
 		res.Crashed = true
 	case strings.Contains(out, "CRASHBOX-TARGET"):
